@@ -72,8 +72,13 @@ def main(chk: core.Check) -> int:
                 calls.append({"history": hist, "workers": rng.choice([1, 4]), "sel": rng.choice([None, ["mdc", "emc"]]), "per_batch": 0, "n_blocks": 0})
             plan["files"].append({"id": fi, "path": path, "calls": calls})
             files.append((path, blocks))
-        # concatenation of files
+        # concatenation of files: in list order (not sorted), a file named twice, the same file under a second name (symlink)
         plan["files"][0]["calls"].append({"concat": [p for p, _ in files[:3]], "per_batch": 2, "workers": 2, "sel": None, "n_blocks": -1})
+        link = os.path.join(tmpd, "a_link_to_f1.raw")
+        os.symlink(files[1][0], link)
+        files.append((link, files[1][1]))
+        plan["files"][0]["calls"].append({"concat": [files[2][0], link, files[0][0], files[2][0], files[1][0], files[3][0]], "per_batch": 3, "workers": 2, "sel": None, "n_blocks": -1})
+        plan["files"][0]["calls"].append({"concat": [files[3][0], files[1][0]], "per_batch": 1000, "workers": 1, "sel": ["emc"], "n_blocks": -1})
         plan_path = os.path.join(tmpd, "plan.json")
         json.dump(plan, open(plan_path, "w"))
         proc = subprocess.Popen([core.PY, str(core.VERIF / "tools" / "checks" / "c04_child.py"), str(core.VERIF / "tools"), plan_path],
@@ -135,8 +140,11 @@ def main(chk: core.Check) -> int:
                 for p in res["concat"]:
                     bl = dict(files)[p]
                     want += project(rf.expected([e for b in bl for e in b], ALL), None)
+                want = project(want, res.get("sel")) if res.get("sel") else want
                 if res["result"] != want:
-                    chk.failing_input("concatenate_raw", {"files": len(res["concat"])}, f"{len(res['result'])} events", f"{len(want)} events", "concatenating files returns the same events in the same order")
+                    chk.failing_input("concatenate_raw", {"files": [os.path.basename(p) for p in res["concat"]], "n_block_per_batch": res.get("per_batch"), "sub_detectors": res.get("sel")},
+                                      {"event_numbers": [r["evt_header"]["evt_no"] for r in res["result"]]}, {"event_numbers": [r["evt_header"]["evt_no"] for r in want]},
+                                      "concatenating files returns the same events in the same order (the order of the list, every listed file once per mention)")
                 chk.hist("call_kind", "concatenate")
                 continue
             want = want_for(res["n_blocks"], res.get("sel"))
@@ -173,7 +181,112 @@ def main(chk: core.Check) -> int:
                 chk.obligation_broken("correspondence", "RawReader driver", str(ex))
         if results:
             chk.sample({k: results[3].get(k) for k in ("file", "n_blocks", "per_batch", "workers", "sel", "batches")})
+        if not chk.failing:
+            concurrent_decode(chk, rng, rounds=60 if thorough else 12)
+            if thorough:
+                tsan_decode(chk, rng)
     finally:
         import shutil
         shutil.rmtree(tmpd, ignore_errors=True)
     return chk.finish(None)
+
+
+def _batches_for_threads(rng, n_threads, events_per_batch):
+    """one batch of words per thread; all ROB payloads of comparable length so that a shared buffer is overwritten, not reallocated"""
+    import numpy as np
+    out = []
+    ev = 0
+    for _ in range(n_threads):
+        evs = [rf.gen_event(rng, ev + j) for j in range(events_per_batch)]
+        ev += events_per_batch
+        data = rf.enc_file([evs])
+        words = np.frombuffer(data, dtype="<u4")
+        # the data region of the file: from the first block separator to the 10-word tail
+        start = int(np.nonzero(words == rf.DATA_SEP)[0][0])
+        out.append((np.ascontiguousarray(words[start:len(words) - 10]), evs))
+    return out
+
+
+def concurrent_decode(chk, rng, rounds: int, n_threads: int = 8):
+    """Decoding calls that really overlap in time (ctypes releases the GIL exactly as the extension does): every thread decodes its own
+    batch with its own parser, all released together by a barrier; each result must equal that batch's sequential decode.
+    State shared between parser instances (a static scratch buffer, a shared table) shows up as a mismatch or a crash.
+    Runs in a child process so that a crash of the decoder is a verdict, not a dead harness."""
+    seed = rng.getrandbits(32)
+    code = f"""
+import sys, json, random
+sys.path.insert(0, {str(core.VERIF / 'tools')!r})
+from checks import c04
+print(json.dumps(c04._concurrent_child({seed}, {rounds}, {n_threads})))
+"""
+    p = subprocess.run([core.PY, "-c", code], capture_output=True, text=True, timeout=1200)
+    chk.count(rounds * n_threads, key="concurrent")
+    chk.coverage["concurrent_decode_rounds"] = rounds
+    inp = {"threads": n_threads, "events_per_batch": 60, "rounds": rounds, "generator_seed": seed}
+    if p.returncode != 0:
+        sig = f"signal {-p.returncode}" if p.returncode < 0 else f"exit {p.returncode}"
+        if p.returncode < 0 or "Segmentation" in p.stderr or "double free" in p.stderr or "corrupt" in p.stderr or "malloc" in p.stderr:
+            chk.failing_input("decoding calls overlapping in time (one parser per call, 8 threads released together)", inp, f"the decoding process died ({sig}): {p.stderr[-300:]}",
+                              "the sequential decode of every batch", "the array returned is identical for every worker-thread count; the call terminates normally")
+            return
+        raise core.Infra("concurrent-decode child failed: " + p.stderr[-1500:])
+    res = json.loads(p.stdout.strip().splitlines()[-1])
+    if res["bad"]:
+        chk.failing_input("decoding calls overlapping in time (one parser per call, 8 threads released together)", {**inp, "round": res["bad"][0], "batches_that_differ": res["bad"][1]},
+                          res["bad"][2], "the sequential decode of the same batch", "the array returned is identical for every worker-thread count (each call owns its parser; nothing is shared between calls)")
+
+
+def _concurrent_child(seed, rounds, n_threads):
+    import threading
+    rng = random.Random(seed)
+    batches = _batches_for_threads(rng, n_threads, 60)
+    ref = [json.dumps(_to_plain(native.native_read_bes_raw(words, None)), sort_keys=True) for words, _ in batches]
+    bad = None
+    for rd in range(rounds):
+        got = [None] * n_threads
+        bar = threading.Barrier(n_threads)
+
+        def work(i):
+            bar.wait()
+            try:
+                got[i] = json.dumps(_to_plain(native.native_read_bes_raw(batches[i][0], None)), sort_keys=True)
+            except Exception as ex:
+                got[i] = f"raised {type(ex).__name__}: {ex}"
+        ths = [threading.Thread(target=work, args=(i,)) for i in range(n_threads)]
+        [t.start() for t in ths]
+        [t.join() for t in ths]
+        wrong = [i for i in range(n_threads) if got[i] != ref[i]]
+        if wrong:
+            bad = (rd, wrong, got[wrong[0]][:300])
+            break
+    return {"bad": bad}
+
+
+def _to_plain(res):
+    out = {}
+    for k, v in res.items():
+        if isinstance(v, dict):
+            out[k] = {n: a.tolist() for n, a in v.items()}
+        else:
+            o, d = v
+            out[k] = [o.tolist(), ({n: a.tolist() for n, a in d.items()} if isinstance(d, dict) else d.tolist())]
+    return out
+
+
+def tsan_decode(chk, rng):
+    """thorough tier: the same overlap under ThreadSanitizer (a data race between parser instances is reported even when the outputs happen to agree)"""
+    import numpy as np
+    exe = native.build("raw_tsan")
+    batches = _batches_for_threads(rng, 8, 40)
+    blob = bytearray()
+    import struct
+    for words, _ in batches:
+        blob += struct.pack("<II", len(words), 0) + np.asarray(words, dtype=np.uint32).tobytes()
+    p = subprocess.run([str(exe), "6"], input=bytes(blob), capture_output=True, timeout=900, env=dict(os.environ, TSAN_OPTIONS="halt_on_error=0:report_signal_unsafe=0"))
+    err = p.stderr.decode(errors="replace")
+    chk.count(8 * 6, key="tsan")
+    chk.coverage["tsan_run"] = {"exit": p.returncode, "races_reported": err.count("WARNING: ThreadSanitizer: data race")}
+    if "ThreadSanitizer: data race" in err or p.returncode not in (0,):
+        first = err[err.find("WARNING: ThreadSanitizer"):][:1200] if "ThreadSanitizer" in err else (p.stdout.decode(errors="replace")[-400:] + err[-400:])
+        chk.failing_input("concurrent decoding under ThreadSanitizer (native build of the working tree)", {"threads": 8, "rounds": 6}, first, "no data race between parser instances, outputs equal to the sequential decode",
+                          "identical for every worker-thread count: calls must not share mutable state")
